@@ -455,7 +455,11 @@ func (root *Root) replaceArgVars(vars map[string]interface{}, v interface{}, at 
 				tv[k], ea2 = root.replaceArgVars(vars, v, vt)
 				ea = append(ea, ea2...)
 			}
-			if val, err = it.CoerceIn(val); err != nil {
+		}
+		// Coerced by the declared type and not by its base type, an object
+		// is not a value of a list or of a scalar type.
+		if ic, _ := at.(InCoercer); ic != nil {
+			if val, err = ic.CoerceIn(val); err != nil {
 				ea = append(ea, resWarnp(nil, "%s", err))
 			}
 		}
